@@ -186,8 +186,12 @@ def install_hooks():
             inc.world.fs.dead = True
             inc.world.fs.fired.append(dict(lf, idx=inc.world.fs.nsys, syscall="likelihood", window=None))
             raise SimCrash(lf["kind"], f"likelihood batch {k}")
+        tg = inc.world.target
+        p0, z0 = tg.n_points, tg.n_neginf
         logl, blobs = orig_ll(self, x)
-        inc.batch_log.append((len(logl), int(np.sum(np.isneginf(logl)))))
+        # what the user's model itself evaluated and returned (the simulator owns it), not what the library made of the values
+        dn, dz = tg.n_points - p0, tg.n_neginf - z0
+        inc.batch_log.append((dn, dz) if dn else (len(logl), int(np.sum(np.isneginf(logl)))))
         for m in inc.monitors:
             m.on_batch(inc, x, logl, blobs)
         return logl, blobs
